@@ -45,6 +45,7 @@ fn announce_matches_datasets(h: &Header, m: &AnnounceMessage, st: &PtpInstanceSt
 // @variant dl128_lists2
 // @stubbing yes
 // @timeout 1800
+// @mem 14
 // @functions Port::handle_announce_timer, Port::send_announce, Message::announce, TlvSetBuilder::add, TlvSetBuilder::build, Tlv::serialize, SequenceIdGenerator::generate
 // @bounds one step from an arbitrary port state (all five); arbitrary parentDS / currentDS (stepsRemoved <= 255) / timePropertiesDS (every leap / utc / traceable / timescale / time-source combination); path trace on or off with one symbolic entry in the list; no forwarded TLVs; announce interval 2^0 s
 // @assume MAX_DATA_LEN scaled 1024 -> 128 (margin 64, path capacity 16) and list capacities 8 -> 2 in the scratch copy
@@ -195,6 +196,7 @@ fn forward_case(l0: usize, l1: usize) {
 // @variant dl128_lists2
 // @stubbing yes
 // @timeout 1800
+// @mem 14
 // @functions Port::send_announce, TlvSetBuilder::add, ForwardedTLV::size, Tlv::wire_size
 // @bounds master port, provider queue of two TLVs with value lengths (6, 8), symbolic TLV types (all 2^16), each from the parent or from another sender, path trace on/off (empty received path)
 // @assume provider honours the documented contract of next_if_smaller (returns the next TLV iff its wire size <= max_size); MAX_DATA_LEN scaled to 128 (room 64); recording serialize stub
@@ -210,6 +212,7 @@ fn c15_forward_small() { forward_case(6, 8) }
 // @variant dl128_lists2
 // @stubbing yes
 // @timeout 1800
+// @mem 14
 // @functions Port::send_announce, TlvSetBuilder::add
 // @bounds as c15_forward_small with value lengths (60, 0): the first TLV's wire size equals the whole room (64) when path trace is off
 // @assume as c15_forward_small
@@ -225,6 +228,7 @@ fn c15_forward_exact_fit() { forward_case(60, 0) }
 // @variant dl128_lists2
 // @stubbing yes
 // @timeout 1800
+// @mem 14
 // @functions Port::send_announce, TlvSetBuilder::add
 // @bounds as c15_forward_small with value lengths (20, 36): the second TLV's wire size equals the remaining room (40) after the first
 // @assume as c15_forward_small
@@ -240,6 +244,7 @@ fn c15_forward_second_exact_fit() { forward_case(20, 36) }
 // @variant dl128_lists2
 // @stubbing yes
 // @timeout 1800
+// @mem 14
 // @functions Port::send_announce, TlvSetBuilder::add
 // @bounds as c15_forward_small with value lengths (62, 4): the first TLV is two octets larger than the room and must stay queued, blocking the second
 // @assume as c15_forward_small
@@ -255,6 +260,7 @@ fn c15_forward_too_big() { forward_case(62, 4) }
 // @variant dl128_lists2
 // @stubbing yes
 // @timeout 1800
+// @mem 14
 // @functions Port::send_announce, TlvSetBuilder::add
 // @bounds as c15_forward_small with value lengths (28, 36): wire sizes 32 + 40 exceed the room (64) together, each fits alone - a dropped first TLV must not use up room
 // @assume as c15_forward_small
